@@ -20,7 +20,7 @@ from vlib.core import Stage, fail
 ID = "C12"
 MANIFEST = {
     "category": "exploration",
-    "text": "Schedule exploration by generated-input search: (single) AHB expressions with several modal-mark parts, repeated keys, hints, format constraints and packages occurring several times x content evaluation results x a schedule (list of yield counts consumed call by call by the harness's async RcEvaluator / FcEvaluator methods, HintsProvider and PackageResolver; every third rc method is a plain function). The results of evaluate_ahb_expression_tree (incl. package expansion), requirement_constraint_evaluation and format_constraint_evaluation under the schedule must equal the results under the all-zero schedule and the reference evaluator's selection/outcome; the expanded tree must equal the zero-schedule tree. (concurrent) 2-5 jobs - AHB evaluations and is_valid_expression calls - run as concurrent tasks with yielding ContentEvaluationResult-based evaluators - or a method-based RcEvaluator whose evaluate_<key> coroutines derive their answer from the evaluatable data they are handed - that read the job's own result from a ContextVar; every job must equal its run alone. For is_valid_expression jobs on expressions with 1-3 requirement constraints the harness records which evaluatable data the evaluations of the call were served: exactly the 3^m possible states, each evaluation its own. A third of the concurrent cases use a HintsProvider whose get_hint_text is a plain function reading the job's context-local data. Half of the is_valid_expression jobs go on to evaluate their expression in the same task; the outcome is judged by the reference and compared between the solo and the concurrent run. Stage failures: one requirement constraint method raises after its pauses and a hint text is missing; the error that reaches the caller must be the one of the zero schedule. The single stage also calls RcEvaluator.evaluate_conditions directly with evaluation contexts for half of the keys: every key must get its value, a key with a context must be evaluated in that context, the others in the default one.",
+    "text": "Schedule exploration by generated-input search: (single) AHB expressions with several modal-mark parts, repeated keys, hints, format constraints and packages occurring several times x content evaluation results x a schedule (list of yield counts consumed call by call by the harness's async RcEvaluator / FcEvaluator methods, HintsProvider and PackageResolver; every third rc method is a plain function). The results of evaluate_ahb_expression_tree (incl. package expansion), requirement_constraint_evaluation and format_constraint_evaluation under the schedule must equal the results under the all-zero schedule and the reference evaluator's selection/outcome; the expanded tree must equal the zero-schedule tree. (concurrent) 2-5 jobs - AHB evaluations and is_valid_expression calls - run as concurrent tasks with yielding ContentEvaluationResult-based evaluators - or a method-based RcEvaluator whose evaluate_<key> coroutines derive their answer from the evaluatable data they are handed - that read the job's own result from a ContextVar; every job must equal its run alone. In a third of the concurrent cases every call of a user-supplied component first awaits one request in flight that all calls of the run share (unshielded, as user code does), and a quarter of the evaluation jobs lack the answer for one of their keys and fail with NotImplementedError while their other parts are still suspended: the healthy jobs next to them must not notice. For is_valid_expression jobs on expressions with 1-3 requirement constraints the harness records which evaluatable data the evaluations of the call were served: exactly the 3^m possible states, each evaluation its own. A third of the concurrent cases use a HintsProvider whose get_hint_text is a plain function reading the job's context-local data. Half of the is_valid_expression jobs go on to evaluate their expression in the same task; the outcome is judged by the reference and compared between the solo and the concurrent run. Stage failures: one requirement constraint method raises after its pauses and a hint text is missing; the error that reaches the caller must be the one of the zero schedule. The single stage also calls RcEvaluator.evaluate_conditions directly with evaluation contexts for half of the keys: every key must get its value, a key with a context must be evaluated in that context, the others in the default one.",
     "note": "Trusted: the schedule harness (vlib/sched.py), the reference evaluator, attrs equality of result objects. Delays enumerate completion orders among already started awaitables of one single-threaded event loop; threads are out of scope. Process configuration by shard (vlib/sut.py; recorded in replay files): plain / parse caches preheated beyond their size / warnings attributed to ahbicht raised as errors / logging fully enabled with every record rendered; one event loop per process or a new one per call; five process time zones; the hash seed is the shard number; namesakes of ahbicht's marshmallow schema classes are registered.",
     "technique": "property-based schedule exploration (harness-controlled yield counts) with differential (zero schedule) and reference oracles",
 }
@@ -166,6 +166,35 @@ def strategy_failures(tier):  # pylint:disable=unused-argument
 # -------------------------------------------------------------------------------------------------- concurrent
 
 
+_BACKEND = {"rounds": None, "task": None}
+
+
+async def _handshake(rounds):
+    for _ in range(rounds):
+        await asyncio.sleep(0)
+    return True
+
+
+async def _pause(label):
+    """
+    What a call of a user-supplied component waits for: (optionally) the one request in flight that every call of the
+    run shares - a connection handshake, a token refresh; whoever needs it awaits the same task, unshielded, as user code
+    commonly does - and then its own scheduled pauses.
+    """
+    if _BACKEND["rounds"] is not None:
+        task = _BACKEND["task"]
+        if task is None or task.get_loop() is not asyncio.get_running_loop():
+            task = _BACKEND["task"] = asyncio.ensure_future(_handshake(_BACKEND["rounds"]))
+        await task
+    await _CURRENT[0].pause(label)
+
+
+def _known_or_raise(condition_key, evaluatable_data):
+    """a user-supplied evaluator checks its arguments before it goes to its backend"""
+    if condition_key not in evaluatable_data.body["requirement_constraints"]:
+        raise NotImplementedError(f"No result was provided for condition '{condition_key}'.")
+
+
 def _yielding_cer_based_providers(method_based_rc=False, sync_hints=False):
     from ahbicht.content_evaluation.fc_evaluators import ContentEvaluationResultBasedFcEvaluator
     from ahbicht.content_evaluation.rc_evaluators import ContentEvaluationResultBasedRcEvaluator
@@ -174,24 +203,25 @@ def _yielding_cer_based_providers(method_based_rc=False, sync_hints=False):
 
     class Rc(ContentEvaluationResultBasedRcEvaluator):
         async def evaluate_single_condition(self, condition_key, evaluatable_data, context=None):
-            await _CURRENT[0].pause(("rc", condition_key, _JOB.get()))
+            _known_or_raise(condition_key, evaluatable_data)
+            await _pause(("rc", condition_key, _JOB.get()))
             return await super().evaluate_single_condition(condition_key, evaluatable_data, context)
 
     class Fc(ContentEvaluationResultBasedFcEvaluator):
         async def evaluate_single_format_constraint(self, condition_key):
-            await _CURRENT[0].pause(("fc", condition_key, _JOB.get()))
+            await _pause(("fc", condition_key, _JOB.get()))
             result = await super().evaluate_single_format_constraint(condition_key)
-            await _CURRENT[0].pause(("fc-after", condition_key, _JOB.get()))
+            await _pause(("fc-after", condition_key, _JOB.get()))
             return result
 
     class Hints(ContentEvaluationResultBasedHintsProvider):
         async def get_hint_text(self, condition_key):
-            await _CURRENT[0].pause(("hint", condition_key, _JOB.get()))
+            await _pause(("hint", condition_key, _JOB.get()))
             return await super().get_hint_text(condition_key)
 
     class Packages(ContentEvaluationResultBasedPackageResolver):
         async def get_condition_expression(self, package_key):
-            await _CURRENT[0].pause(("pkg", package_key, _JOB.get()))
+            await _pause(("pkg", package_key, _JOB.get()))
             return await super().get_condition_expression(package_key)
 
     rc_evaluator = Rc()
@@ -209,13 +239,15 @@ def _yielding_cer_based_providers(method_based_rc=False, sync_hints=False):
             if index % 4 == 3:
 
                 def plain(self, evaluatable_data, context, key=key):  # pylint:disable=unused-argument
+                    _known_or_raise(key, evaluatable_data)
                     return sut.CFV(evaluatable_data.body["requirement_constraints"][key])
 
                 setattr(MethodRc, f"evaluate_{key}", plain)
             else:
 
                 async def delayed(self, evaluatable_data, context, key=key):  # pylint:disable=unused-argument
-                    await _CURRENT[0].pause(("rc", key, _JOB.get()))
+                    _known_or_raise(key, evaluatable_data)
+                    await _pause(("rc", key, _JOB.get()))
                     return sut.CFV(evaluatable_data.body["requirement_constraints"][key])
 
                 setattr(MethodRc, f"evaluate_{key}", delayed)
@@ -275,7 +307,9 @@ async def _job(index, job):
 
     api = evalhelp.api()
     _JOB.set(index)
-    cer = sut.make_cer(rc=job["cer"]["rc"], fc=job["cer"]["fc"], hints=job["cer"]["hints"], packages=job["table"])
+    # a job may lack the answer for one of its keys: its evaluation fails (NotImplementedError), the other jobs do not care
+    rc = {key: value for key, value in job["cer"]["rc"].items() if key != job.get("missing_rc")}
+    cer = sut.make_cer(rc=rc, fc=job["cer"]["fc"], hints=job["cer"]["hints"], packages=job["table"])
     _CER.set(cer)
     if job["kind"] == "validity":
         verdict = await is_valid_expression(job["s"], _CER.set)
@@ -296,8 +330,10 @@ def check_concurrent(case):
     _configure_concurrent(case.get("method_based_rc", False), case.get("sync_hints", False))
     # every job alone, nothing yields
     alone = []
+    _BACKEND["rounds"] = case.get("shared_backend")
     for index, job in enumerate(jobs):
         _CURRENT[0] = sched.Schedule([])
+        _BACKEND["task"] = None
 
         async def one(index=index, job=job):
             return await asyncio.create_task(_job(index, job))
@@ -342,6 +378,7 @@ def check_concurrent(case):
     # all jobs concurrently under the schedule
     schedule = sched.Schedule(case["delays"])
     _CURRENT[0] = schedule
+    _BACKEND["task"] = None
 
     async def together():
         tasks = [asyncio.create_task(sut.acall(_job(index, job))) for index, job in enumerate(jobs)]
@@ -381,6 +418,12 @@ def classify_concurrent(case, info):
         labels.append("jobs-interleaved")
     if any(j["kind"] == "validity" for j in case["jobs"]):
         labels.append("with-validity-check")
+    if case.get("shared_backend") is not None:
+        labels.append("calls-share-a-request-in-flight")
+    if any(j.get("missing_rc") for j in case["jobs"]):
+        labels.append("a-job-fails")
+        if case.get("shared_backend") is not None and any(not j.get("missing_rc") for j in case["jobs"]):
+            labels.append("a-job-fails-next-to-healthy-ones-sharing-a-request")
     return labels, info["interleaved"] > 0
 
 
@@ -434,8 +477,12 @@ def strategy_concurrent(tier):
             else:
                 expr, table = draw(_expression(size))
                 jobs.append({"kind": kind, "s": expr["s"], "parts": expr["parts"], "table": table, "cer": draw(vtree.g_cer())})
+                asked = sorted({k for part in expr["parts"] if part[1] is not None for k in ref.keys_of(part[1], "rc")})
+                if asked and draw(st.sampled_from(range(4))) == 0:
+                    jobs[-1]["missing_rc"] = draw(st.sampled_from(asked))
         return {"jobs": jobs, "delays": _delays(draw, 60), "method_based_rc": draw(st.booleans()),
-                "sync_hints": draw(st.sampled_from([False, False, True]))}
+                "sync_hints": draw(st.sampled_from([False, False, True])),
+                "shared_backend": draw(st.sampled_from([None, None, 2, 6, 12, 30]))}
 
     return build()
 
@@ -451,6 +498,6 @@ STAGES = [
           sample=lambda c: {"s": c["s"], "failing": c["failing_rc"], "missing_hints": c["missing_hints"], "delays": c["delays"]}),
     Stage(name="concurrent", kind="hyp", check=check_concurrent, classify=classify_concurrent, strategy=strategy_concurrent,
           budget={"quick": 100, "thorough": 1500},
-          floors={"jobs-interleaved": 0.4, "with-validity-check": 0.2},
+          floors={"jobs-interleaved": 0.4, "with-validity-check": 0.2, "a-job-fails-next-to-healthy-ones-sharing-a-request": 0.1},
           sample=lambda c: {"jobs": [(j["kind"], j["s"], j["cer"]["rc"]) for j in c["jobs"]], "delays": c["delays"]}),
 ]  # fmt: skip
